@@ -197,7 +197,8 @@ def c13_cases(rng, tier):
                                 dict(s=s, e=e, st=st), nontrivial=(s != e)))
     # translated / large coordinates
     for _ in range(300 if tier == 'quick' else 5000):
-        off = rng.choice([10 ** 9, -10 ** 9, 10 ** 13, -10 ** 13, 2 ** 40, 0])
+        # incl. offsets that a float64 cannot hold exactly (odd values above 2^53, 2^60 + small)
+        off = rng.choice([10 ** 9, -10 ** 9, 10 ** 13, -10 ** 13, 2 ** 40, 0, 2 ** 53 + 1, -(2 ** 53) - 3, 2 ** 60 + 7, -(2 ** 61) + 5, 2 ** 62 - 101])
         s = off + rng.randint(-30, 30)
         e = s + rng.randint(-60, 60)
         st = rng.randint(-9, 9)
@@ -217,7 +218,7 @@ def c13_cases(rng, tier):
                 hist.append(list(t))
     for _ in range(500 if tier == 'quick' else 20000):
         h = []
-        off = rng.choice([0, 0, 0, 10 ** 9, -10 ** 13])
+        off = rng.choice([0, 0, 0, 10 ** 9, -10 ** 13, 2 ** 53 + 1, -(2 ** 60) - 9])
         for _ in range(rng.randint(2, 8)):
             s = off + rng.randint(-15, 30)
             e = s + rng.randint(-25, 25)
@@ -779,7 +780,7 @@ def c12_cases(rng, tier):
         for _ in range(rng.randint(0, 8)):
             k = rng.randrange(9)
             if k == 0:
-                ops.append('D' + rng.choice(['/x/y', '/x/y/', 'rel', 'rel/', '/', '/a.b/c', 'q/w/e/']))
+                ops.append('D' + rng.choice(['/x/y', '/x/y/', 'rel', 'rel/', '/', '/a.b/c', 'q/w/e/', 'C:\\shots\\sh020\\', 'C:\\shots\\sh010', 'a\\b', 'a\\b/', '\\']))
             elif k == 1:
                 ops.append('B' + gens.basename(rng))
             elif k == 2:
@@ -869,7 +870,8 @@ def c12_oracle(c, impl_line):
     for op in m['ops']:
         k, a = op[0], op[1:]
         if k == 'D':
-            d = a if a.endswith('/') else a + '/'
+            sep = '\\' if '\\' in a else '/'          # a directory written with backslashes keeps them
+            d = a if a.endswith(sep) else a + sep
         elif k == 'B':
             b = a
         elif k == 'E':
@@ -1171,9 +1173,13 @@ def disk_dir(rng, n):
         ents.append('%s:%s' % (kind, nm))
     sp = rng.randrange(6)
     rel = cdir + '/d'
-    path = [rel, rel + '/', './' + rel, root + '/' + rel, root + '/' + rel + '/', cdir + '//d'][sp]
     readable = 0 if rng.random() < 0.05 else 1
-    return path, ents, readable, dangling, ['rel', 'rel/', './rel', 'abs', 'abs/', 'dbl-slash'][sp]
+    via = readable and rng.random() < 0.15
+    if via:
+        # the directory is reached through a relative symlink and its own links are relative ("../x")
+        rel = 'v%d/alt/x/d' % n
+    path = [rel, rel + '/', './' + rel, root + '/' + rel, root + '/' + rel + '/', rel.replace('/', '//', 1)][sp]
+    return path, ents, readable, dangling, ['rel', 'rel/', './rel', 'abs', 'abs/', 'dbl-slash'][sp] + (':via-link' if via else '')
 
 
 def c06_cases(rng, tier):
@@ -1487,6 +1493,17 @@ def c15_cases(rng, tier):
             out.append(case('padsize', [st, s], repr(s), 'padsize', dict(s=s)))
         else:
             out.append(case('seq', [s, st], repr(s), 'seq', dict(s=s)))
+    # IsFrameRange vs the parser on the malformed-range grammar (every kind) and on steps that are
+    # numerically zero in every spelling
+    import gens as _g
+    for _ in range(1500 if tier == 'quick' else 30000):
+        s, kind = _g.malformed_range(rng)
+        out.append(case('fs', [s], repr(s), 'fs-malformed:' + kind, dict(s=s)))
+    for body in ['1-10', '10-1', '1-5,8-20', '-5-5', '3-9']:
+        for md in 'xy:':
+            for z in ['0', '00', '000', '-0', '-00', '0 0', ' 0', '0#', '@0', '+0', '0x0']:
+                s = body + md + z
+                out.append(case('fs', [s], repr(s), 'fs-zero-step', dict(s=s)))
     return out
 
 
